@@ -7,11 +7,22 @@ package base58
 //@ func base58.Decode
 //@   ensures (exists k :: 0 <= k && k < len(b) && b58[int(b[k])] == 255) ==> len(result) == 0
 //@   ensures freshornil(result)
+//@   ensures forall c u8 :: (b58[int(c)] == 255) == (b58.dig(c) == 255)
+//@   ensures (forall k :: 0 <= k && k < len(b) ==> b58[int(b[k])] != 255) ==> len(result) == b58.ones(b, 0, len(b)) + len($loc_tmpval) && big.be($loc_tmpval, len($loc_tmpval)) == b58.valfrom(b, 0, len(b))
+//@   ensures (forall k :: 0 <= k && k < len(b) ==> b58[int(b[k])] != 255) ==> (forall k :: 0 <= k && k < b58.ones(b, 0, len(b)) ==> result[k] == 0) && (forall k :: 0 <= k && k < len($loc_tmpval) ==> result[b58.ones(b, 0, len(b)) + k] == $loc_tmpval[k])
+//@   ensures (forall k :: 0 <= k && k < len(b) ==> b58[int(b[k])] != 255) && len($loc_tmpval) > 0 ==> $loc_tmpval[0] != 0
 //@   modifies nothing
+//@   opaque b58.dig
+//@   revealin assert.1: b58.dig
+//@   revealin ensures.3@ret1: b58.dig
+//@   revealin ensures.3@ret2: b58.dig
 //@   loop 1 invariant -1 <= i && i < len(b) && answer != nil && j != nil && scratch != nil && fresh(answer) && fresh(j) && fresh(scratch)
 //@   loop 1 invariant forall k :: i < k && k < len(b) ==> b58[int(b[k])] != 255
+//@   loop 1 invariant *answer == b58.valfrom(b, i + 1, len(b)) && *j == b58.pow(len(b) - 1 - i) && *answer >= 0 && *j >= 1
 //@   loop 1 decreases i + 1
+//@   assert after SetInt64#1: int(tmp) == b58.dig(b[i]) && 0 <= int(tmp) && int(tmp) < 58
 //@   loop 2 invariant 0 <= numZeros && numZeros <= len(b)
+//@   loop 2 invariant b58.ones(b, 0, len(b)) == numZeros + b58.ones(b, numZeros, len(b))
 //@   loop 2 decreases len(b) - numZeros
 
 //@ func base58.Encode
